@@ -1,9 +1,10 @@
 package harness
 
 import (
-	"os"
 	"bytes"
+	"errors"
 	"fmt"
+	"os"
 	"sort"
 	"strconv"
 	"sync"
@@ -12,6 +13,7 @@ import (
 
 	"github.com/anishathalye/porcupine"
 	"github.com/quickfixgo/quickfix/verifsim/simnet"
+	"github.com/quickfixgo/quickfix/verifsim/simos"
 	"github.com/quickfixgo/quickfix/verifsim/simsync"
 
 	"verifsim/wire"
@@ -111,6 +113,10 @@ func runC02(env *Env, tier string) {
 	switchPct := []int{10, 2, 5, 25, 50}[ch.Choose("switchpct", 5)]
 	env.Cfg["switch_pct"] = switchPct
 
+	// file store: the disk fails somewhere inside some of the sends (drawn up front, armed by the sender)
+	type diskFault struct{ op, short int }
+	anyDiskFault := false
+	diskFaults := map[string][]diskFault{}
 	nsenders := 1 + ch.Choose("senders", 4)
 	var opsMu sync.Mutex
 	var ops []c02op
@@ -118,6 +124,19 @@ func runC02(env *Env, tier string) {
 	for k := 0; k < nsenders; k++ {
 		calls := 1 + ch.Choose("calls", 6)
 		name := fmt.Sprintf("sender-%d", k)
+		if c.Store == "file" && !c.PersistOff && ch.Chance("diskfaults", 1, 4) {
+			df := make([]diskFault, calls)
+			for j := range df {
+				if ch.Chance("diskfault", 1, 3) {
+					df[j].op = 1 + ch.Choose("diskfaultop", 6)
+					if ch.Chance("shortwrite", 1, 2) {
+						df[j].short = 1 + ch.Choose("shortbytes", 12)
+					}
+				}
+			}
+			diskFaults[name] = df
+			anyDiskFault = true
+		}
 		running.Add(1)
 		go func() {
 			simsync.Register(name)
@@ -129,7 +148,15 @@ func runC02(env *Env, tier string) {
 			for j := 0; j < calls; j++ {
 				id := fmt.Sprintf("%s.%d", name, j)
 				inv := env.Rec("task:"+name, "invoke", id, true)
+				if df := diskFaults[name]; j < len(df) && df[j].op > 0 {
+					simos.Current().ArmWriteFault(df[j].op, simos.Fault{Err: errors.New("injected: input/output error"), Short: df[j].short})
+				}
 				err := s.E.Send("D", AppBody(id))
+				if df := diskFaults[name]; j < len(df) && df[j].op > 0 {
+					if !simos.Current().DisarmWriteFault() {
+						env.Stat("fault_disk_write_error_in_save")
+					}
+				}
 				ret := env.Rec("task:"+name, "return", id, true)
 				o := c02op{task: name, invoke: inv, ret: ret, seq: -1}
 				if err != nil {
@@ -385,7 +412,7 @@ func runC02(env *Env, tier string) {
 	}
 	env.State("il:" + strconv.FormatUint(h%1000003, 36))
 
-	judgeC02(env, s, c, ops, startN, rrNs, storeFaults, logonRace)
+	judgeC02(env, s, c, ops, startN, rrNs, storeFaults || anyDiskFault, logonRace)
 	env.Nontrivial = interleaved
 }
 
@@ -405,18 +432,41 @@ func judgeC02(env *Env, s *Sut, c EngineCfg, ops []c02op, startN int, rrNs []int
 	var saves []sv
 	var resetNs []int
 	epoch := 0
+	anyFailedReset := false
+	failedReset := 0 // a Reset that returned an error (injected disk fault) may or may not have taken effect
 	for _, call := range calls {
 		if call.Err != "" {
+			if call.Op == "Reset" {
+				failedReset = call.N
+				anyFailedReset = true
+			}
 			continue
 		}
+		num := -1
 		switch call.Op {
 		case "Reset":
 			epoch++
 			resetNs = append(resetNs, call.N)
+			failedReset = 0
 		case "SaveIncr":
-			saves = append(saves, sv{call.N, call.A, epoch, call.Msg, call.Task})
+			num = call.A
 		case "IncrSender":
-			saves = append(saves, sv{call.N, call.A - 1, epoch, nil, call.Task})
+			num = call.A - 1
+		}
+		if num < 0 {
+			continue
+		}
+		if failedReset != 0 {
+			if num == 1 {
+				epoch++
+				resetNs = append(resetNs, failedReset)
+			}
+			failedReset = 0
+		}
+		if call.Op == "SaveIncr" {
+			saves = append(saves, sv{call.N, num, epoch, call.Msg, call.Task})
+		} else {
+			saves = append(saves, sv{call.N, num, epoch, nil, call.Task})
 		}
 	}
 	epochAt := func(n int) int {
@@ -565,14 +615,28 @@ func judgeC02(env *Env, s *Sut, c EngineCfg, ops []c02op, startN int, rrNs []int
 			}
 		}
 	}
-	// store agrees at quiescence
-	if st := s.E.Store(); st != nil && len(saves) > 0 {
+	// store agrees at quiescence (not judged after a Reset that failed half-way under an injected disk error:
+	// what the store then holds is neither the old nor the new epoch, and no listed statement says which)
+	if st := s.E.Store(); st != nil && len(saves) > 0 && !anyFailedReset {
 		last := saves[len(saves)-1]
 		if last.epoch == len(resetNs) {
 			if got := st.inner.NextSenderMsgSeqNum(); got != last.num+1 {
 				env.Violate("C02/next-sender", "next outbound number %d, highest handed out %d", got, last.num)
 				return
 			}
+		}
+		// the backing file/database agrees too: after a refresh (counters and index re-read from the backing
+		// store) the next outbound number is still one past the highest number handed out
+		if last.epoch == len(resetNs) && c.Store != "memory" && !storeFaults {
+			if err := st.inner.Refresh(); err != nil {
+				env.Violate("C02/next-sender-durable", "refreshing the store from its backing file/database fails: %v", err)
+				return
+			}
+			if got := st.inner.NextSenderMsgSeqNum(); got != last.num+1 {
+				env.Violate("C02/next-sender-durable", "after a refresh from the backing file/database the next outbound number is %d, highest handed out %d", got, last.num)
+				return
+			}
+			env.Stat("probe_durable_counter_checked")
 		}
 		if !c.PersistOff {
 			for _, x := range saves {
